@@ -413,8 +413,131 @@ func c20FirstUse(n, perProducer, P int) Scenario {
 	return vsScenario(&VsSpec{Name: name, Body: body, Check: check, P: P})
 }
 
+// c20OddValues: what is logged is the caller's business: entries whose data is nil, a
+// nil pointer, an empty string, zero; whose owner is nil; whose type is 0 or negative.
+// Each takes its place in the ring like any other (entries are told apart by their
+// types here, every one different). Every sequence of up to maxLen entries over these
+// kinds, capacities 1..3; after each Log, Filter(nil, 0) is the last N in order.
+func c20OddValues(maxLen int) Scenario {
+	name := fmt.Sprintf("sequential entries with nil / zero data, owners and types, up to %d entries", maxLen)
+	return Scenario{Name: name, Run: func(rc *RunCtx) *Result {
+		res := &Result{Exhaustive: true}
+		kinds := []struct {
+			name  string
+			data  interface{}
+			owner interface{}
+		}{
+			{"ordinary", 7, c20Owners[1]},
+			{"nil data", nil, c20Owners[1]},
+			{"nil pointer as data", (*go9p.Fcall)(nil), c20Owners[2]},
+			{"empty string as data", "", c20Owners[1]},
+			{"zero as data", 0, c20Owners[2]},
+			{"nil owner", 5, nil},
+			{"nil data and nil owner", nil, nil},
+		}
+		var bad string
+		var seqs [][]int
+		var gen func(cur []int)
+		gen = func(cur []int) {
+			if len(cur) > 0 {
+				seqs = append(seqs, append([]int{}, cur...))
+			}
+			if len(cur) == maxLen {
+				return
+			}
+			for k := range kinds {
+				gen(append(cur, k))
+			}
+		}
+		gen(nil)
+		var panicked string
+		horizon := false
+		for _, n := range []int{1, 2, 3} {
+			for _, sq := range seqs {
+				if bad != "" || rc.Expired() {
+					break
+				}
+				n, sq := n, sq
+				body := func() {
+					l := go9p.NewLogger(n)
+					var types []int
+					for i, k := range sq {
+						// types tell the entries apart: all different, among them 0 is never used for
+						// an entry (Filter's 0 means "any"), negative ones are
+						t := 10 + i
+						if i%3 == 2 {
+							t = -(10 + i)
+						}
+						l.Log(kinds[k].data, kinds[k].owner, t)
+						vs.Idle()
+						types = append(types, t)
+						res.Evals++
+						got := l.Filter(nil, 0)
+						want := types
+						if len(want) > n {
+							want = want[len(want)-n:]
+						}
+						var gt []int
+						for _, it := range got {
+							if it == nil {
+								gt = append(gt, 0)
+							} else {
+								gt = append(gt, it.Type)
+							}
+						}
+						if !eqInts(gt, want) {
+							var ks []string
+							for _, k2 := range sq[:i+1] {
+								ks = append(ks, kinds[k2].name)
+							}
+							bad = fmt.Sprintf("capacity %d, entries logged (by type) %v with %v: Filter(nil, 0) returns the entries of types %v, the last %d logged are %v", n, types, ks, gt, n, want)
+							return
+						}
+						// asked for by its own type, the entry just logged is there
+						if one := l.Filter(nil, t); len(one) != 1 || one[0] == nil || one[0].Type != t {
+							bad = fmt.Sprintf("capacity %d: the entry just logged (%s, type %d) is not returned by Filter(nil, %d)", n, kinds[k].name, t, t)
+							return
+						}
+					}
+				}
+				x := vs.Run(nil, body, vs.Options{Horizon: 1000000})
+				if len(x.Panics) > 0 && panicked == "" {
+					panicked = x.Panics[0].Value
+				}
+				horizon = horizon || x.HitHorizon
+			}
+		}
+		x := struct {
+			Panics     []string
+			HitHorizon bool
+		}{nil, horizon}
+		if panicked != "" {
+			x.Panics = []string{panicked}
+		}
+		res.Nontrivial = res.Evals
+		res.States = int64(len(seqs) * 3)
+		res.Traces = int64(len(seqs) * 3)
+		if len(x.Panics) > 0 {
+			bad = "panic: " + x.Panics[0]
+		} else if x.HitHorizon {
+			res.Exhaustive = false
+			res.CapHit = "step horizon"
+		}
+		if bad != "" {
+			res.Findings = append(res.Findings, Finding{Sig: "C20/odd-values/" + sigWords(bad), Msg: bad})
+		}
+		res.Samples = append(res.Samples, fmt.Sprintf("%d sequences over 7 kinds of entry x capacities 1..3", len(seqs)))
+		return res
+	}}
+}
+
 func c20Scenarios(tier string) []Scenario {
 	var out []Scenario
+	if tier == "thorough" {
+		out = append(out, c20OddValues(5))
+	} else {
+		out = append(out, c20OddValues(4))
+	}
 	caps := []int{1, 2, 3, 4}
 	if tier == "thorough" {
 		caps = []int{1, 2, 3, 4, 8, 16, 64}
